@@ -22,10 +22,10 @@ def run(ctx):
         o['remdup'] = True
         L = rng.choice([4, 6, 8])
         oL = dict(o, level=L)
-        try:
-            fL, obsL, kL = molfacts.impl_run(m, cid, oL)
-        except Exception:
+        r0 = m1lib.base_run(ctx, name, m, cid, oL)
+        if r0 is None:
             continue
+        fL, obsL, kL = r0
         ids = m1lib.all_level_ids(fL)
         for k in range(kL):
             stats['nest_pairs'] += 1
